@@ -353,6 +353,14 @@ def rule_r5(facts, col):
                 col.bad("C07.R5", "%s.%s:pub" % (TOKEN_ADT, fld["name"]), "", "the flag field is public: anyone can reset it", {})
 
 
+def _is_some_temp(body, op):
+    q = op.get("c") or op.get("m")
+    if q is None or q["p"]:
+        return False
+    d2 = body.defs().get(q["l"], [])
+    return len(d2) == 1 and d2[0][2] == "rv" and d2[0][3]["k"] == "agg" and d2[0][3].get("variant") == "Some"
+
+
 def _slot_state_search(body, slot, starts):
     """explicit-state search over (block, state of the Option local `slot` in {'N','S','?'}) - returns {block: set(states at its
     terminator)}.  Refines on `Option::is_none/is_some(&slot)` results and on discr(slot) switches; `slot = Some(..)`,
@@ -384,13 +392,19 @@ def _slot_state_search(body, slot, starts):
             d = st["dst"]
             if d["l"] == slot and not d["p"]:
                 rv = st["rv"]
+                via_call = None
                 if rv["k"] == "use":
                     q = rv["a"].get("c") or rv["a"].get("m")
                     if q is not None and not q["p"]:
                         d2 = body.defs().get(q["l"], [])
                         if len(d2) == 1 and d2[0][2] == "rv":
                             rv = d2[0][3]
-                if rv["k"] == "agg" and rv.get("adt") == "std::option::Option":
+                        elif len(d2) == 1:
+                            via_call = body.term(d2[0][0])
+                if via_call is not None and via_call["f"].get("name") in ("or", "or_else") and len(via_call["args"]) >= 2 and \
+                        _is_some_temp(body, via_call["args"][1]):
+                    cur = "S"       # `slot = slot.or(Some(e))`
+                elif rv["k"] == "agg" and rv.get("adt") == "std::option::Option":
                     cur = "S" if rv.get("variant") == "Some" else "N"
                 else:
                     cur = "?"
